@@ -134,3 +134,29 @@ Example C04_standard_example :   (* death in the middle of an update, restart, p
   filter (fun x => match x with ORet _ _ _ => true | _ => false end) (snd (std_run fixed_cfg ts)) =
     [ORet 0 RetFresh (rec_of 7 1); ORet 0 RetCache (rec_of 7 1); ORet 0 RetCache (rec_of 7 1); ORet 0 RetFresh (rec_of 7 3)].
 Proof. vm_compute. reflexivity. Qed.
+
+(* clause (b) over the standard semantics: after any execution [ts] (deaths and restarts at any access)
+   that leaves a completed publication in the segment and client j between two calls, the client's next
+   call - at most cells + 4 of its accesses - returns that publication (or its cached record when the
+   live generation equals the cached one, the documented exception) *)
+Theorem C04_restarted_publications_seen_standard_semantics :
+  forall {RF : RecFun} c ts m o j r q e, safe_cfg c = true -> (0 < c_retries c)%N ->
+  Forall real_token ts -> m_run (m_init c) ts = (m, o) ->
+  nth_error (m_rs m) j = Some r -> r_pc r = RIdle ->
+  latest LGen (w_log (m_w m)) = Some q -> ev (w_log (m_w m)) q = Some e -> e_kind e = KEven ->
+  exists k pre ret rec, (k <= c_cells c + 4)%nat /\
+    snd (std_run c (ts ++ repeat (TR j None) k)) = snd (std_run c ts) ++ pre ++ [ORet j ret rec] /\ Forall is_access pre /\
+    ((ret = RetFresh /\ rec = recf (c_cells c) (e_att e)) \/ (ret = RetCache /\ rec = r_cache r /\ e_val e = r_cache_gen r)).
+Proof.
+  intros RF c ts m o j r q e Hs Hr Hts R Hj Hpc Hq He Hk.
+  destruct (C04_restarted_publications_seen c ts m o j r q e Hs Hr Hts R Hj Hpc Hq He Hk)
+    as (k & m' & pre & ret & r' & Hkk & R2 & Hpre & _ & _ & _ & Hcase).
+  exists k, pre, ret, (r_cache r'). split; [exact Hkk|].
+  assert (Hrep : Forall real_token (repeat (TR j None) k)) by (apply Forall_forall; intros x Hx; apply repeat_spec in Hx; subst; exact I).
+  assert (Hall : Forall real_token (ts ++ repeat (TR j None) k)) by (apply Forall_app; split; assumption).
+  destruct (standard_system_is_the_machine c (ts ++ repeat (TR j None) k) (safe_cfg_ok c Hs) Hall) as (E1 & _ & _).
+  destruct (standard_system_is_the_machine c ts (safe_cfg_ok c Hs) Hts) as (E0 & _ & _).
+  rewrite E1, E0, m_run_app, R. cbn [fst snd]. rewrite R2. cbn [snd].
+  split; [reflexivity|]. split; [exact Hpre|].
+  destruct Hcase as [(-> & Hc & _) | (-> & Hc & Hg)]; [left | right]; auto.
+Qed.
